@@ -24,8 +24,11 @@ def main(tier):
     res.merge(histrun.run(PROP, b, nc, {"p_crash": 0.12, "variant": "keep-all"}, ORACLES, salt="ck"))
     res.merge(histrun.run(PROP, b, nc, {"p_crash": 0.12, "variant": "lose-all-unsynced"}, ORACLES, salt="cl"))
     # crash / fault sweeps at call granularity over fixed scenarios
-    scen = [3, 10] if quick else [3, 10, 26, 34, 87]
     prof = {"max_msgs": 3, "p_term_restart": 0.0, "p_alrm": 0.02}
+    scen = histrun.pick_scenarios(PROP, b, "sw", prof, 2 if quick else 5)
+    if not scen:
+        raise core.Inconclusive("no sweep scenario with deliveries found")
+    res.counters["sweep_scenarios"] = {str(i): 1 for i in scen}
     for si, idx in enumerate(scen):
         calls, h = histrun.reference_calls(PROP, b, idx, "sw", prof)
         res.counters.inc("sweep_reference_calls", len(calls))
@@ -36,6 +39,13 @@ def main(tier):
         if not quick or si == 0:
             plans = histrun.fault_plans(calls, every=2 if quick else 1)
             res.merge(histrun.run_sweep(PROP, b, idx, "sw", prof, ORACLES, plans))
+    # failing stat() and read() of queue files inside qmail-send (logged classes t and r of the shim)
+    prof2 = dict(prof, count="mtr", trace_extra="tr")
+    for idx in scen[:1 if quick else 3]:
+        calls, h = histrun.reference_calls_log(PROP, b, idx, "sw", prof2)
+        res.counters.inc("sweep_reference_stat_read_calls", len(calls))
+        plans = histrun.fault_plans(calls, every=3 if quick else 1)
+        res.merge(histrun.run_sweep(PROP, b, idx, "sw", prof2, ORACLES, plans))
     rule = ("seeded random histories (1-3 messages, 0-4 recipients incl. duplicates, senders ordinary/empty/#@[]/VERP, outcomes "
             "K/Z/D/garbage per attempt, ALRM/HUP/TERM+restart, clock steps, concurrency and spawner limits) on real qmail-send + "
             "qmail-clean + qmail-queue; random crashes with disk variants keep-all and lose-all-unsynced; SIGKILL before every "
